@@ -733,3 +733,118 @@ Proof.
   split; [|vm_compute; repeat split].
   intros [|[|i]] Hi; [vm_compute; reflexivity|vm_compute; reflexivity|]. exfalso. vm_compute in Hi. lia.
 Qed.
+
+(* ---------- Delete with AutoGC: the cascade respects the lock discipline ---------- *)
+Definition dang_steps (ds : list nat) : list kstep := flat_map (fun d => [KExists d; KReg (RegDig (plain d))]) ds.
+
+Lemma delete_item_explicit k ds :
+  prog_delete_item k ds = [KRegDelete k] ++ dang_steps ds ++
+                          [KSave SLock; KSave SSnap; KSave SWrite; KSave SUnlock; KRemove k].
+Proof. unfold dang_steps. vm_compute. reflexivity. Qed.
+
+Lemma delete_auto_explicit items :
+  prog_delete_auto items = KWLock :: flat_map (fun it => prog_delete_item (fst it) (snd it)) items ++ [KWUnlock].
+Proof. reflexivity. Qed.
+
+Fixpoint steps_ok (a : tstate) (p : list kstep) : bool :=
+  match p with [] => true | st :: p' => tstep_ok a st && steps_ok (tnext a st) p' end.
+
+Lemma check_app2 p : forall a q, steps_ok a p = true -> check (run_ts a p) q = true -> check a (p ++ q) = true.
+Proof.
+  induction p as [|st p IH]; intros a q S C; simpl in *; auto.
+  apply andb_true_iff in S as [Ok S]. rewrite Ok. simpl. now apply IH.
+Qed.
+Lemma steps_ok_app p : forall a q, steps_ok a p = true -> steps_ok (run_ts a p) q = true -> steps_ok a (p ++ q) = true.
+Proof.
+  induction p as [|st p IH]; intros a q S C; simpl in *; auto.
+  apply andb_true_iff in S as [Ok S]. rewrite Ok. simpl. now apply IH.
+Qed.
+Lemma run_ts_app p : forall a q, run_ts a (p ++ q) = run_ts (run_ts a p) q.
+Proof. induction p; intros; simpl; auto. Qed.
+
+(* the type state inside the exclusive section, between two items *)
+Definition excl_clean (a : tstate) : Prop :=
+  ts_mode a = MExcl /\ ts_hold a = false /\ ts_snapped a = false /\ ts_gc a = [].
+
+Lemma dang_steps_ok ds : forall a, excl_clean a ->
+  forallb (fun d => negb (mem d (ts_clr a))) ds = true ->
+  steps_ok a (dang_steps ds) = true /\
+  excl_clean (run_ts a (dang_steps ds)) /\ ts_clr (run_ts a (dang_steps ds)) = ts_clr a.
+Proof.
+  induction ds as [|d ds IH]; intros a (M & H & S & G) F; simpl in *.
+  - repeat split; auto.
+  - apply andb_true_iff in F as [Fd F].
+    set (a1 := tnext (tnext a (KExists d)) (KReg (RegDig (plain d)))).
+    assert (E1 : excl_clean a1) by (unfold a1; simpl; repeat split; auto).
+    assert (C1 : ts_clr a1 = ts_clr a) by reflexivity.
+    destruct (IH a1 E1) as (A & B & C); [now rewrite C1|].
+    split; [|split].
+    + change (tstep_ok a (KExists d) && (tstep_ok (tnext a (KExists d)) (KReg (RegDig (plain d))) &&
+              steps_ok a1 (dang_steps ds)) = true).
+      rewrite A. simpl. rewrite M. simpl. rewrite Nat.eqb_refl, Fd, G. reflexivity.
+    + exact B.
+    + change (ts_clr (run_ts a1 (dang_steps ds)) = ts_clr a). now rewrite C.
+Qed.
+
+Lemma delete_item_ok k ds a : excl_clean a -> ts_dirty a = false ->
+  forallb (fun d => negb (mem d (k :: ts_clr a))) ds = true ->
+  let p := prog_delete_item k ds in
+  steps_ok a p = true /\ excl_clean (run_ts a p) /\ ts_dirty (run_ts a p) = false /\
+  ts_clr (run_ts a p) = k :: ts_clr a.
+Proof.
+  intros (M & H & S & G) Dy F p. unfold p. rewrite delete_item_explicit.
+  set (a1 := tnext a (KRegDelete k)).
+  assert (E1 : excl_clean a1) by (unfold a1; simpl; repeat split; auto).
+  destruct (dang_steps_ok ds a1 E1 F) as (A & (M2 & H2 & S2 & G2) & C2).
+  remember (run_ts a1 (dang_steps ds)) as a2 eqn:Ea2.
+  set (tl5 := [KSave SLock; KSave SSnap; KSave SWrite; KSave SUnlock; KRemove k]).
+  assert (Tail : steps_ok a2 tl5 = true).
+  { unfold tl5. simpl. rewrite M2, H2, C2. simpl. now rewrite Nat.eqb_refl. }
+  assert (R : run_ts a ([KRegDelete k] ++ dang_steps ds ++ tl5) = run_ts a2 tl5).
+  { change (run_ts a1 (dang_steps ds ++ tl5) = run_ts a2 tl5). now rewrite run_ts_app, <- Ea2. }
+  fold tl5. rewrite R.
+  split; [|split; [|split]].
+  - change (tstep_ok a (KRegDelete k) && steps_ok a1 (dang_steps ds ++ tl5) = true).
+    assert (T1 : tstep_ok a (KRegDelete k) = true) by (simpl; now rewrite M).
+    rewrite T1. simpl. apply steps_ok_app; auto. now rewrite <- Ea2.
+  - unfold tl5. simpl. repeat split; auto.
+  - reflexivity.
+  - unfold tl5. simpl. exact C2.
+Qed.
+
+Lemma cascade_ok items : forall a, excl_clean a -> ts_dirty a = false ->
+  cascade_wf (ts_clr a) items = true ->
+  check a (flat_map (fun it => prog_delete_item (fst it) (snd it)) items ++ [KWUnlock]) = true.
+Proof.
+  induction items as [|[k ds] items IH]; intros a E Dy W.
+  - simpl. destruct E as (M & H & S & G). rewrite M, H, S, Dy. reflexivity.
+  - cbn [cascade_wf] in W. apply andb_true_iff in W as [Wd W].
+    destruct (delete_item_ok k ds a E Dy Wd) as (A & B & C & D).
+    cbn [flat_map fst snd]. rewrite <- app_assoc. apply check_app2; auto. apply IH; auto. now rewrite D.
+Qed.
+
+(* Store.Delete with AutoGC, for every queue: the program respects the lock discipline, so
+   [locks_quiescent] covers threads that run it *)
+Theorem delete_auto_checked items : cascade_wf [] items = true -> check ts0 (prog_delete_auto items) = true.
+Proof.
+  intro W. rewrite delete_auto_explicit. simpl.
+  apply (cascade_ok items (tnext ts0 KWLock)); auto. repeat split.
+Qed.
+
+(* a cascade next to a concurrent Tag, concretely: Delete of node 2 with AutoGC takes its child 1
+   along and gives the dangling manifest 3 a digest reference *)
+Definition exa_s0 : lstate :=
+  mkLS [(RTag 0, plain 2); (RDig 2, plain 2); (RDig 1, plain 1)]
+       [mkDesc 2 0 (Some (RTag 0)); plain 1] [3; 2; 1] None 2
+    (fun i => match i with
+              | 0 => mkLT (prog_delete_auto [(2, [3]); (1, [])]) ts0 None true
+              | _ => mkLT (prog_tag (plain 1) 7) ts0 None true
+              end) (fun _ _ => true).
+Lemma delete_auto_example :
+  cascade_wf [] [(2, [3]); (1, [])] = true /\
+  (let s := l_run (map (fun i => (i, ([], []))) ([1; 1; 1] ++ repeat 0 5 ++ repeat 1 12 ++ repeat 0 30)) exa_s0 in
+   l_quiescent s /\ ll_blobs s = [3] /\ ll_live s = [(RDig 3, plain 3)] /\ ll_disk s = [plain 3]).
+Proof.
+  split; [reflexivity|]. split; [|vm_compute; repeat split].
+  intros [|[|i]] Hi; [vm_compute; reflexivity|vm_compute; reflexivity|]. exfalso. vm_compute in Hi. lia.
+Qed.
